@@ -116,10 +116,18 @@ def fit_dtypes(c) -> bool:
     return False
 
 
+def image_gaps_ok(c) -> bool:
+    """An image that is missing at some step goes through float64: keep its values below 2^53 (above, the round trip
+    changes them -- the documented limit of the NaN fill, not what the property is about)."""
+    gaps = any(a.get("kind") == "write" and a["bucket"] == "image" and any(v < 0 for v in a["per_step"])
+               for m in c["models"] for a in m["actions"])
+    return not gaps or all(top < 2 ** 53 for b, _dt, top, _a, _i in simulate(c) if b == "image")
+
+
 def gen_case(r, force=None) -> dict:
     for _ in range(50):
         c = gen_case_once(r, force)
-        if fit_dtypes(c):
+        if fit_dtypes(c) and image_gaps_ok(c):
             return c
     raise RuntimeError("C03 generator: no representable case in 50 tries")
 
@@ -318,6 +326,13 @@ def gen_case_once(r, force=None) -> dict:
         for _, a in acts:
             if a["bucket"] == b:
                 a["per_step"] = [-1 if i in skip else v for i, v in enumerate(a["per_step"])]
+    # an integer image initialised in some steps only, the LAST one included: the concatenation goes through NaN and
+    # run_pipeline has to restore the unsigned type (judged: Model/Result.v image_restored)
+    if n >= 2 and "image" in buckets and force.get("image_gaps", r.random() < 0.15):
+        skip = set(r.sample(range(n - 1), r.randrange(1, n)))
+        for _, a in acts:
+            if a["bucket"] == "image":
+                a["per_step"] = [-1 if i in skip else v for i, v in enumerate(a["per_step"])]
     models = []
     k = 0
     while k < len(acts):
@@ -365,6 +380,15 @@ def fixed_cases() -> list:
                                    dict(group="charge_measurement", name="ws", actions=[w("signal", "float16", [4 + 9 * i for i in range(n)])]),
                                    dict(group="readout_electronics", name="wi", actions=[w("image", dt, [big + 7 * i for i in range(n)])]),
                                    L()]))
+    # an image initialised in some steps only, the last one included: the unsigned type must be restored (#652)
+    for ps, dts, nd in (([-1, 300], None, False), ([300, -1, 500], None, False), ([-1, 40, -1, 50], None, True),
+                        ([-1, 5, 70001], ["uint8", "uint8", "uint32"], False), ([60000, -1, -1, 7], None, False)):
+        a = w("image", (dts or ["uint16"])[0], ps)
+        if dts:
+            a["dtypes"] = dts
+        cs.append(dict(rows=1, cols=2, start=0, times=[8 * (i + 1) for i in range(len(ps))], nondestr=nd, hier=False, debug=False,
+                       models=[dict(group="charge_collection", name="wx", actions=[w("pixel", "float64", [3 + i for i in range(len(ps))])]),
+                               dict(group="readout_electronics", name="wi", actions=[a]), L()]))
     # uint64 images above 2^53 (round 1: altered by the float64 round trip of xr.merge; exact since the steps are concatenated)
     cs.append(dict(rows=1, cols=1, start=0, times=[8, 16], nondestr=False, hier=False, debug=False,
                    models=[dict(group="readout_electronics", name="wi", actions=[w("image", "uint64", [2 ** 53 + 1, 7])]), L()]))
@@ -736,7 +760,17 @@ def slices_detail(c, o) -> list:
                 out.append(f"values:{b}")
             continue
         if any(w is None for w in want) and b == "image":
-            continue                                    # not judged
+            # judged when the image is there at the last step: the unsigned type is restored; with one dtype in all
+            # initialised steps, that dtype and the initialised slices (Model/Result.v image_restored)
+            if want[-1] is not None:
+                held = {w[0] for w in want if w is not None}
+                n_el = len(want[-1][2])
+                if not v["dtype"].startswith("uint"):
+                    out.append("dtype:image")
+                elif len(held) == 1 and (v["dtype"] not in held or v["shape"] != [len(want)] + list(want[-1][1]) or any(
+                        v["vals"][i * n_el:(i + 1) * n_el] != [to_int(x) for x in w[2]] for i, w in enumerate(want) if w is not None)):
+                    out.append("values:image")
+            continue
         k = None
         flat = []
         for w in want:
@@ -926,6 +960,10 @@ def to_violation(ctx: Ctx, c, o, clause: int, do_shrink=True) -> Violation:
 def generated(ctx: Ctx) -> dict:
     """Gen_C03.v from the tree under test; the last accepted shape if the translation fails (broken obligation)."""
     try:
+        # the ast normalisations the translator relies on are themselves run against python (differential self-test, < 1 s)
+        from translator import c03_norm_selftest
+        if c03_norm_selftest.main(verbose=False) != 0:
+            raise core.TranslationError("translator/c03_norm.py: a normalisation changed the behaviour of a self-test snippet")
         return {"Gen_C03.v": tr.translate(ctx.repo)}
     except core.TranslationError as ex:
         ctx.broken.append(Broken("translation", "declarative part of the result assembly (exposure.py, to_xarray of the "
@@ -949,7 +987,9 @@ def run(ctx: Ctx):
         "the wavelength labels of the result are judged (= those of the cubes the detector held) but not predicted by the model",
         "C03_slices / C03_debug_nodes: every to_xarray copies the container's buffer (C03_readouts_copy, table in Model/Result.v)",
         "a float bucket initialised in some steps only: judged (its slices equal the snapshots where it was initialised, all-NaN "
-        "where it was not); an integer image missing at some step goes through NaN and a cast: recorded, not judged",
+        "where it was not); an integer image missing at some step but there at the last one: the variable must have an unsigned "
+        "type again and, with one dtype in all initialised steps, that dtype and the initialised slices (values < 2^53); the "
+        "slices of the steps without an image (NaN cast to an integer) and an image missing at the last step are not judged",
         "debug: values small enough that np.allclose on integers is equality (|v| < 1e5)",
     ]
     core.proof_leg(ctx, generated(ctx), PROP_FILE)
@@ -965,7 +1005,10 @@ def run(ctx: Ctx):
              dict(buckets=["pixel", "image"], n=3, change=["image"], debug=True), dict(buckets=["signal"], n=5, change=["signal"], nondestr=True),
              dict(buckets=["photon", "charge", "pixel", "signal", "image"], n=2, waves=1, cube=dict(yk="half", xk=None)),
              dict(buckets=["photon", "pixel", "image"], n=3, waves=3, debug=True, cube=dict(yk="one_based", xk="reversed", extra=["mask"])),
-             dict(buckets=["photon", "charge"], n=1, waves=2, cube=dict(yk=None, xk="big", order=1))]
+             dict(buckets=["photon", "charge"], n=1, waves=2, cube=dict(yk=None, xk="big", order=1)),
+             dict(buckets=["image", "pixel"], n=3, image_gaps=True), dict(buckets=["image"], n=4, image_gaps=True, debug=True),
+             dict(buckets=["photon", "image"], n=2, image_gaps=True, hier=True, debug=False),
+             dict(buckets=["image", "signal"], n=5, image_gaps=True, change=["image"], debug=False)]
     for f in aimed:
         cases.append(gen_case(r, f))
     while len(cases) < budget:
@@ -1141,8 +1184,9 @@ META = dict(
     level_note=(
         "Trusted: Coq kernel + vm_compute; the correspondence harness, driver and probes; xarray concat / DataTree, numpy "
         "casts, in-place arithmetic and np.allclose are modelled, not verified. Time labels are integers on a 1/8 s grid and "
-        "array values are integers exactly representable in the dtype of their step. An integer image that is missing at some "
-        "step (NaN-filled, then cast) is not judged; photon cubes whose wavelength labels differ between the steps are not "
+        "array values are integers exactly representable in the dtype of their step. For an integer image that is missing at some "
+        "step (NaN-filled, then cast) only the restored unsigned type and the initialised slices are judged, and only when the "
+        "image is there at the last step; photon cubes whose wavelength labels differ between the steps are not "
         "generated."),
     technique="Coq proof over an executable result-assembly model + in-Coq correspondence/specification evaluation",
     design_ref="DESIGN.md section 6, C03",
